@@ -6,7 +6,7 @@ from fractions import Fraction
 
 ID = "C09"
 BACKENDS = ("py",)          # duration.py does not touch the helper backends
-GEN_MODULES = ()
+GEN_MODULES = ("Duration",)
 MIN_THEOREMS = 16
 RULE = ("ops: dur/absdur with 9 integer arguments (years months weeks days hours minutes seconds milliseconds microseconds) of mixed "
         "sign: small mixed tuples, single large components up to 10^6 (10^9 days for days), sign-cancelling tuples whose total is "
